@@ -567,7 +567,7 @@ impl C16 {
     fn violation(&self, case: &Case, tail: String, expl: String, how: &str, a: String, b: String) -> Verdict {
         // one root cause, many symptoms: a repeated member name in a blob/enum is detected by the parser only
         // when two hashes happen to collide; otherwise both members survive and one of them wins later
-        let tail = if !tail.starts_with("process/") && has_duplicate_member(&case.project) { "nondeterministic/duplicate-member-in-declaration".to_string() } else { tail };
+        let tail = if has_duplicate_member(&case.project) { "nondeterministic/duplicate-member-in-declaration".to_string() } else { tail };
         Verdict::Violation {
             signature: format!("C16/{}", tail),
             detail: format!(
